@@ -33,7 +33,7 @@ func calculateAllocatedFraction(
 ) (resource.Quantity, error) {
 	gpuFractionStr, hasFractionAnnotation := pod.Annotations[constants.GpuFraction]
 	if hasFractionAnnotation {
-		return resource.MustParse(gpuFractionStr), nil
+		return parseFraction(gpuFractionStr)
 	}
 
 	gpuMemoryStr, hasMemoryAnnotation := pod.Annotations[constants.GpuMemory]
